@@ -192,6 +192,133 @@ func setFamily(maxLen int) *core.Family {
 }
 
 // pairs of sets: Equal / == / contains / containsAll / containsAny agree with the model.
+// large containers: sets and records whose size crosses the thresholds at which the
+// open-addressed table (or a Go map behind it) grows, built in three insertion orders,
+// with members that collide in the hash (Long k / Decimal k / Duration k share a hash).
+func largeFamily() *core.Family {
+	sizes := []int{0, 1, 2, 3, 4, 5, 6, 7, 8, 9, 10, 12, 15, 16, 17, 24, 31, 32, 33, 48, 63, 64, 65, 100, 127, 128, 129, 200, 255, 256, 257}
+	member := func(k int) (types.Value, Val) {
+		switch k % 3 {
+		case 0:
+			return types.Long(int64(k / 3)), Long(int64(k / 3))
+		case 1:
+			d, _ := types.NewDecimal(int64(k/3), -4) // k/3 ten-thousandths: the same raw units as Long(k/3)
+			return d, Decimal(int64(k / 3))
+		}
+		return types.NewDurationFromMillis(int64(k / 3)), Duration(int64(k / 3))
+	}
+	return &core.Family{
+		Name: "large-containers",
+		Desc: fmt.Sprintf("sets of n members (longs, decimals and durations with equal raw value: hash collisions at every slot) and records of n keys for n in %v, built ascending, descending and interleaved: Len, Contains of every member and of absent ones, pairwise Equal and hash agreement, iteration multiset, duplicate insertion, text and JSON round trip", sizes),
+		N:    int64(len(sizes)),
+		Run: func(t *core.T, i int64) {
+			n := sizes[i]
+			in := fmt.Sprintf("n=%d", n)
+			var vs []types.Value
+			var ms []Val
+			for k := 0; k < n; k++ {
+				v, m := member(k)
+				vs = append(vs, v)
+				ms = append(ms, m)
+			}
+			model := Set(ms...)
+			orders := [][]types.Value{append([]types.Value{}, vs...), nil, nil, nil}
+			for k := n - 1; k >= 0; k-- {
+				orders[1] = append(orders[1], vs[k])
+			}
+			for k := 0; k < n; k += 2 {
+				orders[2] = append(orders[2], vs[k])
+			}
+			for k := 1; k < n; k += 2 {
+				orders[2] = append(orders[2], vs[k])
+			}
+			orders[3] = append(append([]types.Value{}, vs...), vs...) // every member twice
+			var sets []types.Set
+			for _, o := range orders {
+				sets = append(sets, types.NewSet(o...))
+			}
+			for oi, s := range sets {
+				if s.Len() != n {
+					t.Fail("set-len:large", fmt.Sprintf("%s order %d", in, oi), fmt.Sprint(n), fmt.Sprint(s.Len()))
+				}
+				for k := 0; k < n; k++ {
+					if !s.Contains(vs[k]) {
+						t.Fail("set-contains:large", fmt.Sprintf("%s order %d member %d", in, oi, k), "true", "false")
+						break
+					}
+				}
+				for k := n; k < n+3; k++ {
+					v, _ := member(k)
+					if s.Contains(v) {
+						t.Fail("set-contains:large", fmt.Sprintf("%s order %d absent %d", in, oi, k), "false", "true")
+					}
+				}
+				ms2, err := multiset(collect(s))
+				if err != nil || ms2 != modelMultiset(model) {
+					t.Fail("set-members:large", fmt.Sprintf("%s order %d", in, oi), "the n members once each", fmt.Sprint(err))
+				}
+				for oj, s2 := range sets {
+					if !s.Equal(s2) || !types.NewSet(s).Contains(s2) {
+						t.Fail("set-equal:large", fmt.Sprintf("%s orders %d,%d", in, oi, oj), "equal", "not equal / not found as a member")
+					}
+				}
+				if n > 0 {
+					smaller := types.NewSet(orders[oi][1:]...)
+					if oi < 3 && (s.Equal(smaller) || smaller.Equal(s)) {
+						t.Fail("set-equal:large", fmt.Sprintf("%s order %d vs one member fewer", in, oi), "not equal", "equal")
+					}
+				}
+				if rv, err := parseValue(string(s.MarshalCedar())); err != nil || !rv.Equal(model) {
+					t.Fail("set-cedar-text-roundtrip:large", fmt.Sprintf("%s order %d", in, oi), "equal value", fmt.Sprint(err))
+				}
+				js, err := json.Marshal(s)
+				var back types.Value
+				if err == nil {
+					err = types.UnmarshalJSON(js, &back)
+				}
+				if err != nil || !back.Equal(s) || !s.Equal(back) {
+					t.Fail("set-json-roundtrip:large", fmt.Sprintf("%s order %d", in, oi), "equal value", fmt.Sprint(err))
+				}
+			}
+			// records with n keys, two insertion orders
+			m1, m2 := types.RecordMap{}, types.RecordMap{}
+			for k := 0; k < n; k++ {
+				m1[types.String(fmt.Sprintf("k%d", k))] = vs[k]
+			}
+			for k := n - 1; k >= 0; k-- {
+				m2[types.String(fmt.Sprintf("k%d", k))] = vs[k]
+			}
+			r1, r2 := types.NewRecord(m1), types.NewRecord(m2)
+			if r1.Len() != n || !r1.Equal(r2) || !types.NewSet(r1).Contains(r2) {
+				t.Fail("record-equal:large", in, "equal records of n keys", fmt.Sprint(r1.Len()))
+			}
+			for k := 0; k < n; k++ {
+				if v, ok := r1.Get(types.String(fmt.Sprintf("k%d", k))); !ok || !v.Equal(vs[k]) {
+					t.Fail("record-get:large", fmt.Sprintf("%s key %d", in, k), "the value", fmt.Sprint(v, ok))
+					break
+				}
+			}
+			if n > 0 {
+				delete(m2, "k0")
+				if r1.Equal(types.NewRecord(m2)) {
+					t.Fail("record-equal:large", in+" vs one key fewer", "not equal", "equal")
+				}
+			}
+			js, err := json.Marshal(r1)
+			var back types.Value
+			if err == nil {
+				err = types.UnmarshalJSON(js, &back)
+			}
+			if err != nil || !back.Equal(r1) {
+				t.Fail("record-json-roundtrip:large", in, "equal value", fmt.Sprint(err))
+			}
+			t.AddStates(1)
+			t.Nontrivial()
+			t.Sample(in)
+		},
+	}
+}
+
 func pairFamily(maxLen int) *core.Family {
 	n := len(U)
 	cnt := seqCount(n, maxLen)
@@ -612,9 +739,9 @@ func Check() *core.Check {
 		Assumptions: []string{"the reference equality is structural and type-distinguishing (Cedar ==)"},
 		Families: func(tier string) []*core.Family {
 			if tier == "thorough" {
-				return []*core.Family{closureFamily(), recordFamily(), setFamily(6), pairFamily(3), immutability(7)}
+				return []*core.Family{closureFamily(), recordFamily(), setFamily(6), pairFamily(3), largeFamily(), immutability(7)}
 			}
-			return []*core.Family{closureFamily(), recordFamily(), setFamily(5), pairFamily(2), immutability(5)}
+			return []*core.Family{closureFamily(), recordFamily(), setFamily(5), pairFamily(2), largeFamily(), immutability(5)}
 		},
 	}
 }
